@@ -1,8 +1,42 @@
 package mempool
 
-import "github.com/idena-network/idena-go/crypto/ecies"
+import (
+	"github.com/idena-network/idena-go/blockchain/types"
+	"github.com/idena-network/idena-go/common"
+	"github.com/idena-network/idena-go/crypto/ecies"
+)
 
 // VerifEncryptedKeyFromPackage exposes getEncryptedKeyFromPackage.
 func VerifEncryptedKeyFromPackage(publicFlipKey *ecies.PrivateKey, data []byte, index int) ([]byte, error) {
 	return getEncryptedKeyFromPackage(publicFlipKey, data, index)
 }
+
+// VerifDump exposes the pool's indexes for invariant checks.
+type VerifPoolDump struct {
+	Executable map[common.Address][]*types.Transaction
+	Pending    map[common.Address][]*types.Transaction
+	All        []*types.Transaction
+	ShortCount int
+	Deferred   int
+}
+
+func (pool *TxPool) VerifDump() *VerifPoolDump {
+	pool.mutex.Lock()
+	defer pool.mutex.Unlock()
+	d := &VerifPoolDump{Executable: map[common.Address][]*types.Transaction{}, Pending: map[common.Address][]*types.Transaction{}}
+	for a, e := range pool.executableTxs {
+		d.Executable[a] = append([]*types.Transaction{}, e.txs...)
+	}
+	for a, p := range pool.pendingTxs {
+		d.Pending[a] = p.Sorted()
+	}
+	d.All = pool.all.List(All)
+	pool.shortHashAll.mutex.RLock()
+	d.ShortCount = len(pool.shortHashAll.txs)
+	pool.shortHashAll.mutex.RUnlock()
+	d.Deferred = len(pool.deferredTxs)
+	return d
+}
+
+// VerifQueueLen: number of submissions the async pool has not handed to the pool yet.
+func (pool *AsyncTxPool) VerifQueueLen() int { return len(pool.queue) }
